@@ -18,4 +18,15 @@ static void run(size_t cut) {
            tx->response_message ? (int)bstr_len(tx->response_message) : 0, tx->response_message ? (char *)bstr_ptr(tx->response_message) : "");
     htp_connp_destroy_all(c); htp_config_destroy(cfg);
 }
-int main(void) { run(0); run(10); run(3); return 0; }
+static void run_bytes(void) {      /* the whole response stream one byte per call */
+    htp_cfg_t *cfg = htp_config_create();
+    htp_connp_t *c = htp_connp_create(cfg); htp_connp_open(c, "1.1.1.1", 1, "2.2.2.2", 80, NULL);
+    const char *req = "GET /1 HTTP/1.1\r\nHost: a\r\n\r\nGET /2 HTTP/1.1\r\nHost: a\r\n\r\n";
+    htp_connp_req_data(c, NULL, req, strlen(req));
+    const char *all = "HTTP/1.1 200 OK\r\nContent-Length: 2\r\n\r\nokHTTP/1.1 404 Not Found\r\nContent-Length: 0\r\n\r\n";
+    for (size_t i = 0; i < strlen(all); i++) htp_connp_res_data(c, NULL, all + i, 1);
+    htp_tx_t *tx = htp_list_get(c->conn->transactions, 1);
+    printf("1-byte chunks: tx1 status=%d line=[%.*s]\n", tx->response_status_number, tx->response_line ? (int)bstr_len(tx->response_line) : 0, tx->response_line ? (char *)bstr_ptr(tx->response_line) : "");
+    htp_connp_destroy_all(c); htp_config_destroy(cfg);
+}
+int main(void) { run(0); for (size_t cut = 1; cut < 24; cut++) run(cut); run_bytes(); return 0; }
